@@ -20,10 +20,11 @@ pub enum RestFault {
     StaleTail,
     DigitSubst,
     B64Subst,
+    VlqExtreme,
 }
 
 impl RestFault {
-    pub const ALL: [RestFault; 10] = [
+    pub const ALL: [RestFault; 11] = [
         RestFault::BitFlip,
         RestFault::Overwrite,
         RestFault::Truncate,
@@ -34,6 +35,7 @@ impl RestFault {
         RestFault::StaleTail,
         RestFault::DigitSubst,
         RestFault::B64Subst,
+        RestFault::VlqExtreme,
     ];
     pub fn name(self) -> &'static str {
         match self {
@@ -47,6 +49,7 @@ impl RestFault {
             RestFault::StaleTail => "stale tail",
             RestFault::DigitSubst => "digit substitution in a number literal",
             RestFault::B64Subst => "base64-digit substitution in a mappings string",
+            RestFault::VlqExtreme => "mappings field overwritten with an extreme VLQ value",
         }
     }
 }
@@ -213,6 +216,35 @@ pub fn apply(doc: &mut Vec<u8>, f: RestFault, rng: &mut Rng, other: &[u8]) -> bo
                 let p = pos_in(rng, r);
                 doc[p] = b'0' + rng.below(10) as u8;
             }
+        }
+        RestFault::VlqExtreme => {
+            // a multi-digit overwrite that stays inside the base64 alphabet: one whole VLQ field
+            // becomes 0, +-2^31, +-(2^32-1), +-2^32 or a 62-bit value
+            if hot.mapping_strings.is_empty() {
+                return false;
+            }
+            let r = *rng.pick(&hot.mapping_strings[..]);
+            let p = pos_in(rng, r);
+            let is_digit = |c: u8| B64.contains(&c);
+            if !is_digit(doc[p]) {
+                return false;
+            }
+            // the field under p: digits up to and including the first one without continuation bit
+            let cont = |c: u8| B64.iter().position(|&x| x == c).map(|d| d & 32 != 0).unwrap_or(false);
+            let mut s0 = p;
+            while s0 > r.0 && is_digit(doc[s0 - 1]) && cont(doc[s0 - 1]) {
+                s0 -= 1;
+            }
+            let mut e0 = p;
+            while e0 < r.1 && is_digit(doc[e0]) && cont(doc[e0]) {
+                e0 += 1;
+            }
+            let e0 = (e0 + 1).min(r.1);
+            let mag: i64 = *rng.pick(&[0i64, 1, 1 << 31, (1 << 31) - 1, (1 << 32) - 1, (1 << 32) - 2, 1 << 32, (1 << 32) + 1, 1 << 61, 65536]);
+            let v = if rng.chance(1, 2) { mag } else { -mag };
+            let mut enc = String::new();
+            crate::zoo::vlq(&mut enc, v);
+            doc.splice(s0..e0, enc.bytes());
         }
         RestFault::B64Subst => {
             if hot.mapping_strings.is_empty() {
